@@ -420,7 +420,15 @@ def miri_crosscheck(prop, seed, n_hist, jobs, thorough=True):
 
     def shard(path):
         t32 = have32 and files.index(path) % 2 == 1
-        p = subprocess.run(["cargo", "+nightly", "miri", "run", "--offline"] + (["--target", MIRI_32] if t32 else []) + ["--", "replay-many", "--file", path], cwd=SIM, env=env, stdout=subprocess.PIPE, stderr=subprocess.PIPE, text=True)
+        # (a single very long history can take the interpreter tens of minutes: a shard that
+        # runs out of time counts as 'not replayed', never as a report)
+        try:
+            p = subprocess.run(["cargo", "+nightly", "miri", "run", "--offline"] + (["--target", MIRI_32] if t32 else []) + ["--", "replay-many", "--file", path], cwd=SIM, env=env, stdout=subprocess.PIPE, stderr=subprocess.PIPE, text=True, timeout=int(os.environ.get("VERIF_MIRI_SHARD_TIMEOUT", "1500")))
+        except subprocess.TimeoutExpired as e:
+            out = e.stdout.decode(errors="replace") if isinstance(e.stdout, bytes) else (e.stdout or "")
+            lines_done = [json.loads(l)["line"] for l in out.splitlines() if '"progress"' in l]
+            MIRI_STATE["timeouts"] = MIRI_STATE.get("timeouts", 0) + 1
+            return (lines_done[-1] if lines_done else 0), None
         done, last = 0, -1
         for l in p.stdout.splitlines():
             if '"progress"' in l:
@@ -428,7 +436,7 @@ def miri_crosscheck(prop, seed, n_hist, jobs, thorough=True):
             if '"replayed"' in l:
                 done = json.loads(l)["replayed"]
         report = None
-        if "Undefined Behavior" in p.stderr or (p.returncode != 0 and done == 0):
+        if "Undefined Behavior" in p.stderr or (p.returncode > 0 and done == 0):
             idx = p.stderr.find("error:")
             report = p.stderr[idx: idx + 1200]
             with open(path) as f:
@@ -720,7 +728,7 @@ def check_sim(prop, tier, seed, jobs):
     if prop == "C02" and (thorough or os.environ.get("VERIF_MIRI_IN_QUICK")) and not unlisted:
         n_m = int(os.environ.get("VERIF_MIRI_HISTORIES", "640"))
         total_m, bad_m, note = miri_crosscheck(prop, seed, n_m, jobs)
-        coverage["miri_crosscheck"] = {"histories_replayed_under_miri": total_m, "undefined_behaviour_reports": len(bad_m), "half_of_the_shards_on_32_bit_target": bool(MIRI_STATE.get("i686")), "note": note or "system allocator, observation passes off; -Zmiri-ignore-leaks"}
+        coverage["miri_crosscheck"] = {"histories_replayed_under_miri": total_m, "undefined_behaviour_reports": len(bad_m), "half_of_the_shards_on_32_bit_target": bool(MIRI_STATE.get("i686")), "shards_stopped_at_their_time_limit": MIRI_STATE.get("timeouts", 0), "note": note or "system allocator, observation passes off; -Zmiri-ignore-leaks"}
         if bad_m:
             hist, report = bad_m[0]
             os.makedirs(REPLAYS, exist_ok=True)
